@@ -64,3 +64,17 @@ pub open spec fn registry_extends(old_reg: &TypeRegistry, new_reg: &TypeRegistry
 }
 pub broadcast group group_module_axioms { axiom_spec_segment, axiom_segment_ext }
 }
+verus!{
+// ---------- resolution loop vocabulary (C10) ----------
+pub open spec fn is_unresolved_item(reg: &TypeRegistry, p: ItemPath) -> bool {
+    reg.types@.contains_key(p) && reg.types@[p].category != ItemCategory::Predefined && !(reg.types@[p].state is Resolved)
+}
+/// every registered, non-predefined item is resolved (a build never succeeds with a type left out)
+pub open spec fn all_resolved(reg: &TypeRegistry) -> bool {
+    forall|p: ItemPath| #![trigger reg.types@[p]] #![trigger reg.types@.contains_key(p)] reg.types@.contains_key(p) && reg.types@[p].category != ItemCategory::Predefined ==> reg.types@[p].state is Resolved
+}
+/// registered keys are never removed by a resolution attempt
+pub open spec fn keys_kept(old_reg: &TypeRegistry, new_reg: &TypeRegistry) -> bool {
+    forall|q: ItemPath| #![trigger new_reg.types@.contains_key(q)] old_reg.types@.contains_key(q) ==> new_reg.types@.contains_key(q)
+}
+}
